@@ -94,7 +94,7 @@ def main(argv=None):
     new_violations = []
     known_hits = {}
     tot = dict(paths=0, nontrivial=0, oblig=0, discharged=0, unknown=0, queries=0, solver_s=0.0,
-               validated=0, cuts=0)
+               validated=0, cuts=0, paths_inconclusive=0)
     samples = []
     for fam in fams:
         name = fam["name"]
@@ -212,6 +212,7 @@ def main(argv=None):
             "solver_queries": tot["queries"],
             "solver_time_s": round(tot["solver_s"], 3),
             "paths_cut_by_bound": tot["cuts"],
+            "paths_inconclusive_solver_unknown": tot["paths_inconclusive"],
             "concolic_validations": tot["validated"],
             "exhaustive": not problems,
             "functions_encoded": sorted(functions),
@@ -254,6 +255,8 @@ def stats_of(rep, fam):
         if k in ("unknown-pc", "max-decisions", "after-violation"):
             if k == "after-violation":
                 continue
+            if k == "unknown-pc" and fam.get("allow_inconclusive_paths"):
+                continue  # counted as paths_inconclusive and excluded from the claim (family says so in its bounds)
             problems.append(f"{rep.aborts[k]} path(s) aborted: {k}")
     if rep.val_errors:
         problems.append(f"{len(rep.val_errors)} concolic validation mismatch(es), e.g. {rep.val_errors[0]}")
@@ -261,7 +264,7 @@ def stats_of(rep, fam):
         problems.append(f"only {rep.validated} of {rep.done} completed paths were cross-validated")
     cuts = sum(v for k, v in rep.aborts.items() if k.startswith("cut:"))
     return {
-        "paths": rep.paths, "nontrivial": rep.nontrivial, "done": rep.done, "aborts": rep.aborts, "cuts": cuts,
+        "paths": rep.paths, "paths_inconclusive": rep.aborts.get("unknown-pc", 0), "nontrivial": rep.nontrivial, "done": rep.done, "aborts": rep.aborts, "cuts": cuts,
         "oblig": rep.oblig, "discharged": rep.discharged, "unknown": rep.unknown,
         "unknown_labels": rep.unknown_labels,
         "queries": rep.queries, "solver_s": round(rep.solver_s, 3), "validated": rep.validated,
